@@ -481,8 +481,9 @@ def check_read_ids(repo: Repo, rep: Report):
     construct = repo.construct(EDGELIST, "read_ids")
     params = [a.arg for a in fn.args.args]
     all_methods = {c: repo.class_methods(rel, c) for c, rel in CLASSES.items()}
-    if "ops" not in params or "comments" not in params:
+    if "path" not in params:
         raise AnalysisError("read_ids: unexpected signature %s" % params)
+    defaults = dict(zip(params[len(params) - len(fn.args.defaults):], fn.args.defaults))
     n = 0
     ot = OrderType([["s"]], [], 2)
     for fmt, ops in (("snapshots", False), ("interactions", True)):
@@ -508,6 +509,8 @@ def check_read_ids(repo: Repo, rep: Report):
                     for p in params:
                         env[p] = {"path": Const("file.txt"), "delimiter": delim, "timestamptype": Converter("timestamptype") if tstype else NONE,
                                   "comments": Const("#"), "ops": Const(ops)}.get(p)
+                        if env[p] is None and p in defaults and isinstance(defaults[p], ast.Constant):
+                            env[p] = Const(defaults[p].value)
                         if env[p] is None:
                             raise AnalysisError("read_ids: parameter %s not modelled" % p)
                     try:
